@@ -86,6 +86,12 @@ func (c *C09) AfterRestart(w *World, r *RestartCtx) {
 			return
 		}
 	}
+	// ... and so must everything else the modules keep in their stores (index entries, the
+	// auto-increment sequences that decide which ids are handed out next)
+	if g.RawDiff != "" {
+		w.Violate("R3", "imported-store-differs", "the modules' stores differ between the exporting and the importing chain although rows and re-export agree: %s", g.RawDiff)
+		return
+	}
 	n := 0
 	for _, t := range r.Pre.TableNames {
 		if len(r.Pre.Rows[t]) > 0 {
